@@ -575,6 +575,11 @@ func execRecord(line string) zv.Out {
 		o.Tags = append(o.Tags, fmt.Sprintf("write-records<=%d", (len(lens)/4+1)*4))
 		return o
 
+	case "readx":
+		return execReadx(f)
+	case "writex":
+		return execWritex(f)
+
 	case "read":
 		vers, have, hsc := parseVers(f[2]), f[3] == "1", f[4] == "1"
 		c, seq, wire := parseCipher(f[5]), seq8(f[6]), parseBytes(f[7])
@@ -880,6 +885,8 @@ func genRecord(g *zv.Gen) {
 	}
 	genCrafted(g)
 	genSizing(g)
+	genReadx(g)
+	genWritex(g)
 }
 
 // crafted records: CBC with arbitrary padding bytes / lengths, TLS 1.3 with zero padding and odd inner contents.
